@@ -222,6 +222,47 @@ def doc_scc(rng):
     return "\n".join(out) + "\n"
 
 
+def bad_doc(rng, fmt):
+    """a document the reader must refuse (or that makes it raise): afterwards the same reader object reads valid ones"""
+    if fmt == "scc":
+        if rng.random() < 0.6:
+            # a row of 33+ columns: CaptionLineLengthError after the whole document was decoded
+            ws = ["94ae", "94ae", "9420", "9420", _pac(15, 0), _pac(15, 0)] + \
+                scc_words("this row is definitely longer than thirty two columns") + ["942f", "942f"]
+            return ("Scenarist_SCC V1.0\n\n00:00:01:00\t94ae 94ae 9420 9420 %s %s %s 942f 942f\n\n00:00:02:00\t942c 942c\n\n"
+                    "00:00:03:00\t%s\n\n00:00:09:00\t942c 942c\n"
+                    % (_pac(14, 0), _pac(14, 0), " ".join(scc_words("fine")), " ".join(ws)))
+        if rng.random() < 0.5:
+            return "Scenarist_SCC V1.0\n\n00:00:01:00\t94ae 94ae 9420 9420 %s %s %s 942f 942f\n\nnot a timecode\t942c\n" % (
+                _pac(15, 0), _pac(15, 0), " ".join(scc_words("hello")))
+        # a cue of less than 0.05 s: CaptionReadTimingError
+        return ("Scenarist_SCC V1.0\n\n00:00:01:00\t94ae 94ae 9420 9420 %s %s %s 942f 942c\n"
+                % (_pac(15, 0), _pac(15, 0), " ".join(scc_words("hello"))))
+    if fmt == "vtt":
+        return rng.choice([
+            "WEBVTT\n\n00:05.000 --> 00:04.000\nend before start\n",
+            "WEBVTT\n\n00:05.000 --> 00:06.000\nlater\n\n00:01.000 --> 00:02.000\nearlier start\n",
+            "WEBVTT\n\n00:05.000 --> nonsense\nx\n",
+            "WEBVTT\n\nno cue here\n"])
+    if fmt == "srt":
+        return rng.choice(["1\n00:00:01,000 --> 00:00:02\nshort stamp\n", "1\nnot a timing line\ntext\n",
+                           "1\n00:00:01,000 -> 00:00:02,000\nbad arrow\n", "no cue number\n"])
+    if fmt == "mdvd":
+        return rng.choice(["{25}{50}fine\nthis line has no frames\n", "{0}{0}not-a-rate\n{25}{50}x\n", "\n\n"])
+    if fmt == "dfxp":
+        return rng.choice([
+            '<tt xml:lang="en" xmlns="http://www.w3.org/ns/ttml"><body><div><p begin="one" end="two">x</p></div></body></tt>',
+            '<tt xml:lang="en" xmlns="http://www.w3.org/ns/ttml"><body><div></div></body></tt>',
+            '<tt xml:lang="en" xmlns="http://www.w3.org/ns/ttml"><body><div><p begin="00:00:01.000" end="5t">x</p></div></body></tt>'])
+    if fmt == "sami":
+        return rng.choice([
+            '<SAMI><HEAD><STYLE TYPE="text/css"><!--\n.ENCC {lang: en-US;}\n--></STYLE></HEAD><BODY><SYNC><P class="ENCC">no start</P></SYNC></BODY></SAMI>',
+            '<SAMI><HEAD><STYLE TYPE="text/css"><!--\n.ENCC {lang: en-US;}\n--></STYLE></HEAD><BODY></BODY></SAMI>',
+            '<SAMI><HEAD><STYLE TYPE="text/css"><!--\nP {color: nosuchcolour;}\n.ENCC {lang: en-US;}\n--></STYLE></HEAD><BODY>'
+            '<SYNC start="1000"><P class="ENCC">x</P></SYNC></BODY></SAMI>'])
+    raise ValueError(fmt)
+
+
 DOCS = {"srt": doc_srt, "vtt": doc_vtt, "mdvd": doc_mdvd, "dfxp": doc_dfxp, "sami": doc_sami, "scc": doc_scc}
 FORMATS = ["srt", "vtt", "mdvd", "dfxp", "sami", "scc"]
 
@@ -239,6 +280,8 @@ def read_opts(rng, fmt):
             o["lang"] = rng.choice(LANGS)
         if rng.random() < 0.2:
             o["simulate_roll_up"] = True
+        if rng.random() < 0.3:
+            o["offset"] = rng.choice([1, 2, 30])
         return o
     return {}
 
@@ -249,8 +292,8 @@ def reader_opts(rng, fmt):
         r = rng.random()
         if r < 0.3:
             return {"ignore_timing_errors": False}
-        if r < 0.4:
-            return {"time_shift_milliseconds": 500}
+        if r < 0.45:
+            return {"time_shift_milliseconds": rng.choice([500, 2000])}
     if fmt == "dfxp" and rng.random() < 0.2:
         return {"read_invalid_positioning": True}
     return {}
@@ -260,6 +303,8 @@ def reader_opts(rng, fmt):
 STYLE_CONTENTS = [{"italics": True}, {"bold": True}, {"underline": True}, {"italics": True, "color": "red"},
                   {"font-size": "12px"}, {}, {"color": "blue"}]
 REL_LAYOUTS = [None, None, "rel_fit", "rel_noext", "rel_over", "align", "pad", "vtt", "empty"]
+SET_LEVEL_POOL = ["rel_fit", "rel_fit", "align", "pad", "rel_noext", "rel_over", "abs"]
+VIDEO_SIZES = [(640, 360), (640, 360), (1280, 720), (720, 576)]
 
 
 def gen_nodes(rng, lay):
@@ -286,12 +331,14 @@ def gen_spec(rng, mode=None):
     """mode "rich": every level carries positioning and there are styles (incl. one named p);
        mode "plain": no positioning, no styles at all; None: anything"""
     flavour = rng.random()
-    if mode == "plain":
+    if mode in ("plain", "setlevel"):
         flavour = 0.2
     elif mode == "rich":
         flavour = 0.5 + flavour / 2
+    if mode == "abs":
+        flavour = 0.0
     if flavour < 0.15:
-        pool = ["abs"]                      # uniformly absolute units: writers without video size must refuse
+        pool = ["abs", "abs", "abs_em", "abs_pt", "abs_c"]   # absolute units only: without video size writers must refuse
     elif flavour < 0.35:
         pool = [None]
     else:
@@ -315,7 +362,7 @@ def gen_spec(rng, mode=None):
                                                            {"class": "s1"}, {"italics": True}]))
             caps.append({"start": s_, "end": e_, "style": style,
                          "layout": lay() if rng.random() < (0.9 if mode == "rich" else 0.6) else
-                         (pool[0] if pool == ["abs"] else None), "nodes": gen_nodes(rng, lay)})
+                         (pool[0] if pool[0] == "abs" else None), "nodes": gen_nodes(rng, lay)})
         lang_lay = lay() if rng.random() < 0.4 else None
         if mode == "rich":
             lang_lay = rng.choice(["rel_fit", "rel_noext", "rel_over", "align", "pad"])
@@ -329,6 +376,10 @@ def gen_spec(rng, mode=None):
         return {"layout": rng.choice(["rel_fit", "rel_noext", "pad", None]), "styles": styles, "langs": langs}
     if mode == "plain":
         return {"layout": None, "styles": rng.choice([None, [["big", {"color": "red"}]]]), "langs": langs}
+    if mode == "setlevel":
+        # positioning ONLY at the level no reader produces: CaptionSet.layout_info (from the shared small pool)
+        return {"layout": rng.choice(SET_LEVEL_POOL), "styles": rng.choice([None, [["s1", {"color": "red"}]]]),
+                "langs": langs}
     if rng.random() < 0.5:
         styles = []
         for sel in rng.sample(["s1", "p", "span", "big"], rng.randint(0, 3)):
@@ -351,8 +402,7 @@ def gen_writer(rng, kind=None):
         if rng.random() < 0.25:
             wopts["fit_to_screen"] = False
         if rng.random() < 0.4:
-            wopts["video_width"] = 640
-            wopts["video_height"] = 360
+            wopts["video_width"], wopts["video_height"] = rng.choice(VIDEO_SIZES)
     if kind in ("dfxp", "single") and rng.random() < 0.3:
         wopts["write_inline_positioning"] = True
     if kind == "single" and rng.random() < 0.5:
@@ -432,9 +482,25 @@ def history_c09(rng):
                 return {"op": "build", "spec": gen_spec(rng, rng.choice([None, "rich", "rich"]))}
             return gen_source(rng, rid=k, p_build=0.0)
         kind, wopts = gen_writer(rng)
-        return [src(0), src(1),
+        b = src(1)
+        if rng.random() < 0.4:
+            b = {"op": "build", "spec": gen_spec(rng, "setlevel")}
+        return [src(0), b,
                 {"op": "write", "kind": kind, "wopts": wopts, "kw": {}, "w": 0, "set": 0},
                 {"op": "write", "kind": kind, "wopts": wopts, "kw": {}, "w": 1, "set": 1}]
+    if shape < 0.57:
+        # the SAME set written by different writer objects of one class under DIFFERENT options (video sizes, none,
+        # relativize / fit off), in random order; each is compared with its pristine twin
+        src0 = ({"op": "build", "spec": gen_spec(rng, rng.choice(["abs", "abs", "rich", None]))}
+                if rng.random() < 0.8 else gen_source(rng, rid=0, p_build=0.0, fmts=["dfxp", "sami", "scc"]))
+        kind = rng.choice(["dfxp", "sami", "single", "vtt", "dfxp", "sami"])
+        variants = [{"video_width": w_, "video_height": h_} for (w_, h_) in set(VIDEO_SIZES)] + \
+                   [{}, {"relativize": False}, {"fit_to_screen": False, "video_width": 640, "video_height": 360}]
+        rng.shuffle(variants)
+        ops = [src0]
+        for k, wo in enumerate(variants[:rng.randint(2, 4)]):
+            ops.append({"op": "write", "kind": kind, "wopts": wo, "kw": {}, "w": k, "set": 0})
+        return ops
     nsets = rng.choice([1, 2, 2, 3])
     for k in range(nsets):
         ops.append(gen_source(rng, rid=k, p_build=0.6))
@@ -489,9 +555,16 @@ def history_c10(rng):
         r = rng.random()
         if nsets == 0 or r < 0.45:
             q = rng.random()
+            refused = False
             if docs and q < 0.35:
                 fmt, doc, opts = rng.choice(docs)          # the same document again (a later read)
-            elif q < 0.45 and nsets:
+                if rng.random() < 0.4:
+                    opts = read_opts(rng, fmt)             # ... with other options (offset, lang, roll-up)
+            elif q < 0.50 and (nsets or rng.random() < 0.5):
+                fmt = rng.choice(FORMATS)                  # a document the reader refuses; the object is used again
+                doc, opts = bad_doc(rng, fmt), {}
+                refused = True
+            elif q < 0.55 and nsets:
                 ops.append({"op": "build", "spec": gen_spec(rng)})
                 nsets += 1
                 continue
@@ -518,6 +591,13 @@ def history_c10(rng):
                 readers.setdefault(key, []).append(use)
             ops.append({"op": "read", "fmt": fmt, "doc": doc, "opts": opts, "ropts": ropts, "r": use})
             nsets += 1
+            if refused and rng.random() < 0.8:
+                # ... and now the SAME reader object reads a valid document
+                good = doc_sami(rng) if fmt == "sami" else DOCS[fmt](rng)
+                gopts = read_opts(rng, fmt)
+                docs.append((fmt, good, gopts))
+                ops.append({"op": "read", "fmt": fmt, "doc": good, "opts": gopts, "ropts": ropts, "r": use})
+                nsets += 1
         elif r < 0.75:
             ops.append({"op": "edit", "set": rng.randrange(nsets), "edit": gen_edit(rng)})
         else:
@@ -528,15 +608,15 @@ def history_c10(rng):
     return ops
 
 
-def pristine_twin(history):
-    """the creation ops of a history followed by its LAST write, done by a fresh writer object: what that write
-    returns in a process where nothing else has been written"""
+def pristine_twin(history, which=-1):
+    """the creation ops of a history followed by ONE of its writes (default the last), done by a fresh writer object:
+    what that write returns in a process where nothing else has been written"""
     writes = [op for op in history if op["op"] == "write"]
     if not writes:
         return None
     edited = set(op["set"] for op in history if op["op"] == "edit")
-    last = writes[-1]
-    if last["set"] in edited:
+    w = writes[which]
+    if w["set"] in edited:
         return None
     twin = [op for op in history if op["op"] in ("build", "read")]
-    return twin + [dict(last, w=0)]
+    return twin + [dict(w, w=0)]
